@@ -188,7 +188,13 @@ func (h *HarnessRun) run(workers int, deadline time.Time) {
 	h.cond = sync.NewCond(&h.mu)
 	h.work = []workItem{{}}
 	var wg sync.WaitGroup
+	// the first path runs alone: it triggers the lazy package initialisations
+	first := make(chan struct{})
+	var once sync.Once
 	for w := 0; w < workers; w++ {
+		if w == 1 {
+			<-first
+		}
 		wg.Add(1)
 		go func(id int) {
 			defer wg.Done()
@@ -229,6 +235,7 @@ func (h *HarnessRun) run(workers int, deadline time.Time) {
 				h.mu.Unlock()
 
 				res := h.runPath(s, p)
+				once.Do(func() { close(first) })
 
 				h.mu.Lock()
 				h.busy--
